@@ -164,9 +164,13 @@ def _same_var(orig, dec):
     return same(want, dec.data)
 
 
-def hierarchy_ok(t0: int, t1: int, t2: int, t3: int, nested: bool, empty: bool, with_time: bool, url_none: bool) -> bool:
+PATHS = ["HH_scan1", "", "/", "imagery/HH", "HV"]
+
+
+def hierarchy_ok(t0: int, t1: int, t2: int, t3: int, nested: bool, empty: bool, with_time: bool, url_none: bool, path_idx: int) -> bool:
     """
     pre: -LIM <= t0 <= LIM and -LIM <= t1 <= LIM and -2**63 <= t2 < 2**63 and -2**63 <= t3 < 2**63
+    pre: 0 <= path_idx < len(PATHS)
     post: _
     """
     with Shims():
@@ -183,7 +187,13 @@ def hierarchy_ok(t0: int, t1: int, t2: int, t3: int, nested: bool, empty: bool, 
         data = dict(variables)
         if nested:
             data["sub"] = inner
-        g = Group("HH_scan1", None if url_none else "memory://u", data, {"coordinates": ["rows", "z"], "scan": (t2, [t3]), "s": "é"})
+        attrs = {"coordinates": ["rows", "z"], "scan": (t2, [t3]), "s": "é"}
+        if nested:
+            g = Group(PATHS[path_idx], None if url_none else "memory://u", data, attrs)
+        else:
+            # open_image names the (flat) image group after construction; the name may be empty: no polarisation, no scan
+            g = Group("placeholder", None if url_none else "memory://u", data, attrs)
+            g.path = PATHS[path_idx]
         dec = DEC.decode_hierarchy(_through_json(ENC.encode_hierarchy(g)), records_per_chunk=1)
         ok = isinstance(dec, Group) & (dec.path == g.path) & (dec.url == g.url) & (list(dec.data) == list(g.data)) & _eq_typed(dec.attrs, g.attrs)
         for name, var in variables.items():
